@@ -325,6 +325,50 @@ let () =
          | Mismatch (path, info) ->
            Printf.printf "nfacheck MISMATCH input=[%s] %s\n" (String.concat " " (List.map string_of_int path)) info
          | OutOfFuel -> Printf.printf "nfacheck INCONCLUSIVE fuel\n")
+      | L [A "eccheck"] ->
+        let nf = nfa_of (field "nfa" c) in
+        let d = field "dfa" c in
+        let ecl = Array.of_list (List.map (fun v -> n_of_int (ai v)) (field "ec" d)) in
+        let ec (b : byte) = let i = int_of_n b in if i < Array.length ecl then ecl.(i) else N0 in
+        if ec_consistent nf ec al then Printf.printf "eccheck OK\n"
+        else begin
+          (* name a pair of bytes of one class that some node tells apart *)
+          let bad = ref None in
+          List.iter (fun nd ->
+              List.iter (fun b ->
+                  if !bad = None then begin
+                    let r = ec_rep ec al b in
+                    if sym_has nf nd.n_sym b <> sym_has nf nd.n_sym r then bad := Some (int_of_n b, int_of_n r)
+                  end) al) nf.n_nodes;
+          match !bad with
+          | Some (b, r) -> Printf.printf "eccheck FAILED bytes=%d,%d share class %d but a transition of the NFA tells them apart\n" b r (int_of_n (ec (n_of_int b)))
+          | None -> Printf.printf "eccheck FAILED\n"
+        end
+      | L [A "dfacheck"; fuel] ->
+        let d = field "dfa" c in
+        let width = ai (List.hd (field "width" d)) in
+        let trans = List.fold_left (fun m x -> match x with
+            | L [s; cc; t] -> PositiveMap.add (pos_of_int (ai s * width + ai cc + 1)) (z_of_int (ai t)) m
+            | _ -> failwith "dfa trans") PositiveMap.empty (field "trans" d) in
+        let acc = List.fold_left (fun m x -> match x with
+            | L [s; k] -> PositiveMap.add (pos_of_int (ai s + 1)) (z_of_int (ai k)) m
+            | _ -> failwith "dfa acc") PositiveMap.empty (field "acc" d) in
+        let dd = { d_width = z_of_int width; d_trans = trans; d_acc = acc; d_ec = arr_of (L (field "ec" d)) } in
+        let v = dview dd in
+        let s0 = spec_start prog (n_of_int 1) false in
+        let i0 = v.v_start Z0 false in
+        let descr s i =
+          let sob = String.concat "," (List.map (fun x -> string_of_int (int_of_n x)) (sobs s)) in
+          let iacc = match v.v_acc i with Some z -> string_of_int (int_of_z z) | None -> "undef" in
+          Printf.sprintf "dfa_state=%s dfa_acc=%s spec_rules=[%s] spec_dead=%b" (ist_str i) iacc sob (sdead al s) in
+        (try
+           let (m, cnt) = search_gen v.v_step (ok v al) descr al s0 i0 (ai fuel) in
+           let verdict = check_view v al m s0 i0 in
+           Printf.printf "dfacheck %s pairs=%d\n" (if verdict then "OK" else "CHECK-FAILED") cnt
+         with
+         | Mismatch (path, info) ->
+           Printf.printf "dfacheck MISMATCH input=[%s] %s\n" (String.concat " " (List.map string_of_int path)) info
+         | OutOfFuel -> Printf.printf "dfacheck INCONCLUSIVE fuel\n")
       | L [A "lockstep_r"; A vname; L vars; sc; bol; fuel] ->
         let t = List.assoc vname rtabs in
         let vars = List.map (fun v -> n_of_int (ai v)) vars in
